@@ -9,7 +9,7 @@ CONSTANTS
   HdrKinds = {"contact3", "full"}
   BigPats = {1, 2, 3}
   CopyMax = 3
-  CopyAlpha = {"I", "ID"}
+  CopyAlpha = {"I"}
   BigTextMax = 3
   BigTextAlpha = {"E", "I", "ID", "P"}
   Emit = TRUE
